@@ -317,42 +317,88 @@ pub fn graph_case(case: &Value, _dispatch: Dispatch, r: &mut Report) {
 
 // ---------------------------------------------------------------------------------------------
 // identity of tracked objects: a record, its first member (same address, another type), an unrelated object
-#[repr(C)]
-pub struct Dept {
-    pub head: Emp,
-    pub size: u32,
-}
-pub struct Emp {
-    pub id: u32,
-}
+pub use site2::{Dept, Emp};
 
-/// {"kind":"offers","seqs":[[["D","H","D"],[0,0,1]],..]}: every sequence of offers, bytes as the table of the specification writes them
+/// {"kind":"offers","seqs":[[["D","H","D"],[0,0,1]],..]}: every sequence of offers, bytes as the table of the specification writes them.
+/// "S" / "T" in a sequence: the deduplicated strings "s" / "t" (the string table is another table: MC_Refs!MixBytes).
 pub fn offers_case(case: &Value, _dispatch: Dispatch, r: &mut Report) {
+    use desert_core::DeduplicatedString;
     let d = Dept { head: Emp { id: 1 }, size: 2 };
     let e = Box::new(Emp { id: 3 });
     assert_eq!(&d as *const Dept as usize, &d.head as *const Emp as usize, "the first member shares the record's address");
+    let props: Vec<&str> = case["props"].as_array().map(|a| a.iter().filter_map(|x| x.as_str()).collect()).unwrap_or_else(|| vec!["C10"]);
     for s in case["seqs"].as_array().unwrap() {
         r.count("offers");
         let want = bytes_of(&s[1]);
         let seq: Vec<&str> = s[0].as_array().unwrap().iter().map(|x| x.as_str().unwrap()).collect();
+        // which call site makes the k-th offer: all here, all in the other crate, alternating (both phases)
+        for sites in 0..4usize {
+        let elsewhere = |k: usize| match sites { 0 => false, 1 => true, 2 => k % 2 == 0, _ => k % 2 == 1 };
         let got = guarded(|| {
             let mut ctx = SerializationContext::new(Vec::<u8>::new());
             let mut news = Vec::new();
-            for o in &seq {
+            for (k, o) in seq.iter().enumerate() {
                 let fresh = match *o {
+                    "D" if elsewhere(k) => site2::offer_dept(&mut ctx, &d),
+                    "H" if elsewhere(k) => site2::offer_emp(&mut ctx, &d.head),
+                    "E" if elsewhere(k) => site2::offer_emp(&mut ctx, &e),
                     "D" => ctx.store_ref_or_object(&d),
                     "H" => ctx.store_ref_or_object(&d.head),
-                    _ => ctx.store_ref_or_object(&*e),
+                    "E" => ctx.store_ref_or_object(&*e),
+                    "S" => DeduplicatedString("s".to_string()).serialize(&mut ctx).map(|_| false),
+                    _ => DeduplicatedString("t".to_string()).serialize(&mut ctx).map(|_| false),
                 }?;
-                news.push(fresh);
+                if matches!(*o, "D" | "H" | "E") {
+                    news.push(fresh);
+                }
             }
             Ok::<_, desert_core::Error>((ctx.into_output(), news))
         });
-        let want_new: Vec<bool> = want.iter().map(|b| *b == 0).collect();
         match got {
-            Ok(Ok((bytes, news))) if bytes == want && news == want_new => {}
-            other => r.finding("offers", &["C10"], json!({"offers": seq, "spec": want,
+            Ok(Ok((bytes, news))) if bytes == want && (seq.iter().any(|o| matches!(*o, "S" | "T")) || news == want.iter().map(|b| *b == 0).collect::<Vec<bool>>()) => {
+                // the reader's side of the same stream: strings come back, objects are new exactly where the writer said so
+                let back = guarded(|| {
+                    let mut ctx = DeserializationContext::new(&bytes);
+                    let mut seen_new = Vec::new();
+                    for (k, o) in seq.iter().enumerate() {
+                        match *o {
+                            "S" | "T" => {
+                                let x = DeduplicatedString::deserialize(&mut ctx)?;
+                                if x.0 != o.to_lowercase() {
+                                    return Ok(Err(format!("string {} read as {:?}", o, x.0)));
+                                }
+                            }
+                            _ => {
+                                let known = if elsewhere(k) { site2::next_ref(&mut ctx)? } else { ctx.try_read_ref()?.map(|a| a as *const dyn std::any::Any as *const u8 as usize) };
+                                let addr = match *o { "D" => &d as *const Dept as usize, "H" => &d.head as *const Emp as usize, _ => &*e as *const Emp as usize };
+                                match known {
+                                    None => {
+                                        seen_new.push(true);
+                                        match *o {
+                                            "D" if !elsewhere(k) => site2::register_dept(&mut ctx, &d),
+                                            "H" if !elsewhere(k) => site2::register_emp(&mut ctx, &d.head),
+                                            "E" if !elsewhere(k) => site2::register_emp(&mut ctx, &e),
+                                            "D" => { ctx.state_mut().store_ref(&d); }
+                                            "H" => { ctx.state_mut().store_ref(&d.head); }
+                                            _ => { ctx.state_mut().store_ref(&*e); }
+                                        };
+                                    }
+                                    Some(a) if a == addr => seen_new.push(false),
+                                    Some(_) => return Ok(Err(format!("reference {k} names another object"))),
+                                }
+                            }
+                        }
+                    }
+                    Ok::<_, desert_core::Error>(Ok(seen_new))
+                });
+                match back {
+                    Ok(Ok(Ok(seen))) if seen == news => {}
+                    other => r.finding("offers_read", &props, json!({"writes": seq, "bytes": bytes, "got": format!("{:?}", other.map(|x| x.map_err(|e| e.to_string())))})),
+                }
+            }
+            other => r.finding("offers", &props, json!({"offers": seq, "spec": want, "call_sites": (["all here", "all in another crate", "alternating", "alternating"][sites]),
                 "impl": match other { Ok(Ok((b, n))) => json!({"bytes": b, "new": n}), Ok(Err(e)) => json!(e.to_string()), Err(p) => json!({"panic": p}) }})),
+        }
         }
     }
 }
